@@ -1,5 +1,6 @@
 PROPERTY = "C10"
-PACKAGES = ["./agglayer/grpc", "./aggsender/flows"]
+PACKAGES = ["./agglayer/grpc", "./aggsender/flows", "./agglayer/types"]
+T = "github.com/agglayer/aggkit/agglayer/types."
 G = "github.com/agglayer/aggkit/agglayer/grpc."
 F = "github.com/agglayer/aggkit/aggsender/flows."
 OBLIGATIONS = [
@@ -10,7 +11,20 @@ OBLIGATIONS = [
          harness=F + "ZZVerif_C09_ClaimProofs", params={"NL": 2, "NC": 1, "FIN": 0, "ML": 0, "GIFULL": 1, "MAINNET": 0, "SYMIDX": 1, "LIDX": 0, "RIDX": 0}, reach=["built"],
          time_limit_s=1500, bounds="see C09; assertions 'signed hash = PP commitment of the returned certificate', 'attached signature is the signer's answer'"),
 ]
+SCH = {0: "PP commitment", 1: "FEP commitment", 2: "certificate identity"}
+for _sc, _nb, _ni, _ml, _pa, _gf, _tiers in [
+        (0, 0, 2, 0, 0, 1, ("quick", "thorough")), (1, 0, 2, 0, 1, 1, ("quick", "thorough")), (1, 0, 2, 32, 0, 1, ("quick", "thorough")),
+        (2, 1, 1, 0, 0, 1, ("quick", "thorough")), (2, 2, 2, 32, 0, 1, ("thorough",)), (0, 0, 3, 0, 0, 1, ("thorough",)),
+        (1, 0, 3, 32, 1, 1, ("thorough",)), (1, 0, 1, 0, 0, 0, ("quick", "thorough")), (0, 0, 1, 0, 0, 0, ("quick", "thorough")),
+        (0, 0, 2, 0, 0, 0, ("thorough",)), (1, 0, 2, 0, 1, 0, ("thorough",))]:
+    OBLIGATIONS.append(dict(
+        name="C10.c %s: two certificates with %d exit(s) and %d imported exit(s) (%s metadata%s%s) have equal commitments iff their covered fields are equal" % (
+            SCH[_sc], _nb, _ni, "32-byte" if _ml else "empty", ", aggchain params" if _pa else "", "" if _gf else ", global indexes of every byte length"),
+        harness=T + "ZZVerif_C10_Sensitive", params={"SCHEME": _sc, "NB": _nb, "NI": _ni, "ML": _ml, "PARAMS": _pa, "GIFULL": _gf}, tiers=_tiers, reach=["compared"], time_limit_s=1500,
+        bounds="both certificates fully symbolic (all field values, both index kinds); same shape on both sides"))
 ASSUMPTIONS = ["the submission service is a fake that records the request", "protobuf messages are plain structs (generated getters executed where used)",
                "Keccak as uninterpreted function"]
-OUTSIDE = "the JSON copy stored in the node's database (encoding/json is not modelled): 'stored copy' is not claimed; the aggchain-proof signing scheme; " \
-          "sensitivity of the commitment to single-field changes (needs hash injectivity reasoning at Go level): not claimed"
+ASSUMPTIONS.append("C10.c: equality of commitments is decided under Keccak collision-freeness (equal hashes of equal length have equal inputs, hashes of different "
+                   "input length differ); a metadata field holding the hash of the empty string is the same as empty metadata by construction of the leaf")
+OUTSIDE = "the JSON copy stored in the node's database (encoding/json is not modelled): 'stored copy' is not claimed; signing inside the aggchain-proof flow " \
+          "(its commitment function is covered by C10.c); certificates of different shapes (different numbers of exits) in C10.c"
